@@ -17,6 +17,7 @@ package header
 import (
 	"net"
 	"net/http"
+	"strings"
 
 	"github.com/google/martian/v3"
 )
@@ -48,7 +49,8 @@ func NewForwardedModifier() martian.RequestModifier {
 				xff = req.RemoteAddr
 			}
 
-			if v := req.Header.Get("X-Forwarded-For"); v != "" {
+			// X-Forwarded-For may be spread over several header lines; keep all of them.
+			if v := strings.Join(req.Header["X-Forwarded-For"], ", "); v != "" {
 				xff = v + ", " + xff
 			}
 
